@@ -40,6 +40,8 @@ def run_gose(h, tier, outdir):
     if h.get("redirects"):
         cmd += ["-redirects", ",".join(os.path.join(VERIF, f) for f in h["redirects"].split(","))]
     budget = h.get("budget", {}).get(tier)
+    if not budget and tier == "thorough":
+        budget = "8m"  # default wall-clock budget per harness in the thorough tier; reaching it is reported as a note
     if budget:
         cmd += ["-budget", budget]
     for k in ("maxsteps", "maxdecisions", "qtimeout", "qtimeout2", "solver", "solver2"):
@@ -188,7 +190,15 @@ def main():
             continue
         if r.get("inconclusive"):
             exhaustive = False
-            for m in r["inconclusive"][:5]:
+            unk = [m for m in r["inconclusive"] if m.startswith("solver returned unknown") or "decision budget exceeded" in m or "step budget" in m]
+            other = [m for m in r["inconclusive"] if m not in unk]
+            if tier == "thorough" and unk:
+                # deeper bounds: queries the solvers could not decide within their time limits leave those paths undecided;
+                # that is a reduced bound (reported), not a verdict
+                notes.append("%s: %d paths undecided (solver unknown / unwinding budget), e.g. %s" % (h["name"], len(unk), unk[0][:200]))
+            else:
+                other = r["inconclusive"]
+            for m in other[:5]:
                 problems.append("%s: inconclusive: %s" % (h["name"], m[:400]))
         if not r["exhaustive"]:
             exhaustive = False
